@@ -342,6 +342,22 @@ static void mon_c11(World& w) {
     const std::string sn = w.sc.family();
     if (w.net->max_attempts_in_progress > 1) w.vio("C11:overlapping-attempts:" + sn, std::to_string(w.net->max_attempts_in_progress) + " connection attempts were in progress at the same time");
     if (w.net->connects_after_stop > 0) w.vio("C11:connect-after-cancel:" + sn, "a connection attempt started after cancel()");
+    // a stale trigger (the stream it saw failing has been replaced meanwhile) must not start another attempt: an established
+    // connection is only ever given up for a reason - transport failure, broker closing / DISCONNECT, the client's own
+    // DISCONNECT (sentry, malformed packet, user), a read abandoned by its keep-alive timer, or the client being stopped
+    for (size_t c = 0; c < w.net->conns.size() && c < w.broker->cs.size(); ++c) {
+        const sim::Conn& conn = w.net->conns[c]; if (!w.broker->cs[c].handshake_ok || !conn.client_closed || conn.dead || conn.broker_closed) continue;
+        auto& st = w.net->streams[conn.stream]; if (st->closed_ns < 0 && !st->shut) continue;
+        if (st->read_cancelled_ns >= 0 || st->first_error_ns >= 0) continue;
+        bool reason = false; size_t calen = 0; uint64_t b2c_total = 0;
+        for (auto& e : w.broker->wire) if (e.conn == int(c)) { if (e.c2b && !e.malformed && e.pkt.type == ref::DISCONNECT) reason = true; if (!e.c2b && (e.malformed || e.pkt.type == ref::DISCONNECT)) reason = true; if (!e.c2b) { b2c_total += e.raw.size(); if (!calen && !e.malformed && e.pkt.type == ref::CONNACK) calen = b2c_total; } }
+        if (conn.bytes_b2c_read < calen) continue;     // the client never saw the handshake complete
+        int64_t t_close = st->closed_ns >= 0 ? st->closed_ns : w.now();
+        for (auto ts : w.stop_times) if (ts <= t_close) reason = true;
+        if (w.drain_result.done && st->closed_ns < 0) reason = true;
+        if (w.t_epilogue >= 0 && t_close >= w.t_epilogue) reason = true;
+        if (!reason) { w.vio("C11:healthy-connection-dropped:" + sn, "the client gave up established connection " + std::to_string(c) + " although nothing had failed on it (no transport error, no DISCONNECT either way, no keep-alive timeout, no stop): a stale reconnect trigger was acted upon"); break; }
+    }
     mon_c02(w, "C11");
 }
 
@@ -646,6 +662,14 @@ std::vector<Scenario> scenarios_for(const std::string& prop, int tier) {
             // per-operation cancellation of each publish at any point (injected)
             for (int victim = 1; victim <= 3; ++victim) { auto s = mk("R-cancel-op" + std::to_string(victim), {RUN(), slot(PUB(1, 1)), slot(PUB(2, 2)), slot(PUB(1, 3))}, 2);
                 s.fam |= F_INJECT; s.inject = SIGNAL(victim, 1); v.push_back(s); }
+        }
+        // locally rejected publishes (too large, QoS not supported, invalid topic) never held quota and must not give any back
+        for (int rmv = 1; rmv <= 2; ++rmv) {
+            std::vector<Action> sc = {RUN(), WAIT_HS(1), PUB(1, 1)}; int tag = 7000;
+            auto R_ = [&](Action a, int ec) { a.tag = tag++; a.payload = "payload-" + std::to_string(a.tag); a.expect_reject = true; a.expect_ec = ec; sc.push_back(a); };
+            { Action a = PUB(1, 0); a.topic = std::string(100, 't'); R_(a, 101); } { Action a = PUB(2, 0); R_(a, 105); } { Action a = PUB(1, 0); a.topic = "bad/#"; R_(a, 104); } { Action a = PUB(2, 0); a.topic = std::string(100, 'u'); R_(a, 105); }
+            sc.push_back(chain(PUB(1, 2))); sc.push_back(chain(PUB(1, 3))); sc.push_back(chain(PUB(1, 4))); sc.push_back(PUB(1, 5));
+            auto s = base("R-rejected-then-burst-rm" + std::to_string(rmv), sc, fam, 2, M_C07 | M_C15); s.broker.connack_props = {ref::pnum(0x21, uint32_t(rmv)), ref::pnum(0x27, 64), ref::pnum(0x24, 1)}; s.expect_all_success = false; s.faults_from_pos = 7; v.push_back(s);
         }
         // the Receive Maximum changes from one connection to the next: the quota must follow the current connection's CONNACK
         { int k = 0; for (auto& seq : std::vector<std::vector<int>>{{3, 1}, {1, 3}, {0, 1}, {1, 0}, {2, 1, 2}}) { auto s = base("R-21212-rmseq" + std::to_string(k++), {RUN(), PUB(2, 1), PUB(1, 2), PUB(2, 3), PUB(1, 4), PUB(2, 5)}, fam | F_CONN, 2, M_C07 | M_C06);
